@@ -269,7 +269,7 @@ func genCfg() protogen.GenConfig {
 func TestCompatibleChains(t *testing.T) {
 	r := evid.R()
 	ctx := context.Background()
-	r.Check(t, r.Scale(160, 6000), 1, func(t *rapid.T) {
+	r.Check(t, r.Scale(160, 2000), 1, func(t *rapid.T) {
 		run(ctx, t, r, genChain(t, genCfg()))
 	})
 }
@@ -277,7 +277,7 @@ func TestCompatibleChains(t *testing.T) {
 func TestCategoryHierarchy(t *testing.T) {
 	r := evid.R()
 	ctx := context.Background()
-	r.Check(t, r.Scale(500, 20000), 2, func(t *rapid.T) {
+	r.Check(t, r.Scale(500, 8000), 2, func(t *rapid.T) {
 		run(ctx, t, r, genPair(t, genCfg()))
 	})
 }
